@@ -753,6 +753,18 @@ func (c *Conn) writev(in [][]byte) (int, error) {
 	}
 
 	nwrite, err := writev(c, in)
+	for errors.Is(err, syscall.EINTR) {
+		// interrupted before any data was written, try again.
+		nwrite, err = writev(c, in)
+	}
+	if errors.Is(err, syscall.EAGAIN) && (c.typ == ConnTypeTCP || c.typ == ConnTypeUnix) {
+		// the socket takes nothing right now: cache the whole input as
+		// Write does, the writing event flushes it.
+		for _, v := range in {
+			c.newToWriteBuf(v)
+		}
+		return size, nil
+	}
 	if nwrite > 0 {
 		n := nwrite
 		onWrittenSize := c.p.g.onWrittenSize
